@@ -12,6 +12,7 @@ from ..values import (Const, Sym, CRef, FRef, MRef, Bound, Obj, Tup, App, Coll,
                       New, Raise, walk)
 from ..interp import Interp, Hooks, is_private_helper, prologue_helpers
 from ..formulas import (LANGS, signatures, FormulaHooks, new_instance)
+from ..fields import subformula_field
 from ..report import Finding, RuleResult, floor, Attempts, adopt
 
 PROP = 'C08'
@@ -293,7 +294,7 @@ def rule_sort2(prog, sigs):
                     else:
                         r.ok()
                     continue
-                lst = p.heap[self_v.oid].fields.get('_subformula')
+                lst = p.heap[self_v.oid].fields.get(subformula_field(prog))
                 if not isinstance(lst, Obj):
                     raise Inconclusive('R-SORT-2', '_subformula is not a '
                                        'list built in wrap_subformulas',
